@@ -49,27 +49,49 @@ func (c *CSVFile) Rows() []oracle.Row {
 	return rows
 }
 
-func (c *CSVFile) Render() {
+func (c *CSVFile) Render() { c.RenderStyle("quoted", "\n") }
+
+// csvMinimal writes a field bare when RFC 4180 / encoding/csv read it back
+// verbatim: no quote, comma, CR or LF inside, and not empty (an empty bare field
+// in a one-column record would be a blank line, which readers skip).
+func csvMinimal(f string) string {
+	if f == "" || strings.ContainsAny(f, "\",\r\n") {
+		return CSVQuote(f)
+	}
+	return f
+}
+
+// RenderStyle renders the file with all fields quoted ("quoted") or with
+// minimal quoting ("minimal": bare fields keep leading/trailing blanks, which a
+// reader must preserve), using the given record terminator ("\n" or "\r\n").
+func (c *CSVFile) RenderStyle(style, eol string) {
+	enc := CSVQuote
+	if style == "minimal" {
+		enc = csvMinimal
+	}
 	var sb strings.Builder
 	q := make([]string, len(c.Header))
 	for i, h := range c.Header {
-		q[i] = CSVQuote(h)
+		q[i] = enc(h)
 	}
 	sb.WriteString(strings.Join(q, ","))
-	sb.WriteString("\n")
-	for _, rec := range c.Records {
+	sb.WriteString(eol)
+	for ri, rec := range c.Records {
 		for i, f := range rec {
 			if i > 0 {
 				sb.WriteByte(',')
 			}
-			sb.WriteString(CSVQuote(f))
+			sb.WriteString(enc(f))
 		}
-		sb.WriteString("\n")
+		if ri == len(c.Records)-1 && style == "minimal" && eol == "\n" {
+			break // last record without a trailing newline
+		}
+		sb.WriteString(eol)
 	}
 	c.Text = sb.String()
 }
 
-var headerPool = []string{"a", "B", "Col C", "d-e", "F1", "über", "ÜBER2", "9lives", "x.y", "Name", "city name", "ZIP", "q?", "tab\there", "日本", "k", "İ", "snake_case", "MiXeD", "  pad  ", "a\"b", "h,i"}
+var headerPool = []string{"a", "B", "Col C", "d-e", "F1", "über", "ÜBER2", "9lives", "x.y", "Name", "city name", "ZIP", "q?", "tab\there", "日本", "k", "İ", "Temp \u212a", "snake_case", "MiXeD", "  pad  ", "a\"b", "h,i"}
 
 // csvFields are field contents: the hostile pool minus CR (encoding/csv normalises CRLF).
 func csvField(rng *rand.Rand, hostile bool, card int) string {
@@ -82,9 +104,13 @@ func csvField(rng *rand.Rand, hostile bool, card int) string {
 		}
 	}
 	k := rng.Intn(card)
-	switch rng.Intn(5) {
+	switch rng.Intn(7) {
 	case 0:
 		return "v" + itoa(k)
+	case 5:
+		return " lead" + itoa(k)
+	case 6:
+		return "trail" + itoa(k) + " \t"
 	case 1:
 		return itoa(k)
 	default:
